@@ -325,3 +325,72 @@ Proof.
   rewrite Zplus_mod, (Zplus_mod ((rl_addend re + lo) mod 2 ^ 64)), Z.mod_mod by lia.
   rewrite <- (Zplus_mod (rl_addend re + lo)), <- Zplus_mod. f_equal. lia.
 Qed.
+
+(* ------------------------------------------------------------------ base known when assembling = relocating to that base afterwards *)
+Lemma enc_rel32_value off m : int64 off -> encode_offset (fmt_of_kind K_Rel32) off = Some m -> m = off mod 2 ^ 32.
+Proof.
+  intros Hi He.
+  assert (Hwf : wf_contig (fmt_of_kind K_Rel32)) by (unfold wf_contig; cbn [fmt_of_kind vsize bits shift discard]; lia).
+  pose proof (signed_spec (fmt_of_kind K_Rel32) off eq_refl Hwf Hi) as Hs. rewrite He in Hs. destruct Hs as (_ & ->).
+  simpl. rewrite Z.div_1_r, Z.mul_1_r. reflexivity.
+Qed.
+
+Lemma enc_rel32_total off : - 2 ^ 31 <= off < 2 ^ 31 -> exists m, encode_offset (fmt_of_kind K_Rel32) off = Some m.
+Proof.
+  intros H.
+  assert (Hwf : wf_contig (fmt_of_kind K_Rel32)) by (unfold wf_contig; cbn [fmt_of_kind vsize bits shift discard]; lia).
+  assert (Hi : int64 off) by (unfold int64; lia).
+  pose proof (signed_spec (fmt_of_kind K_Rel32) off eq_refl Hwf Hi) as Hs.
+  destruct (encode_offset (fmt_of_kind K_Rel32) off) as [m|]; [eauto|]. exfalso. apply Hs. unfold signed_ok. simpl.
+  rewrite Z.mod_1_r, Z.div_1_r. lia.
+Qed.
+
+Lemma to_i64_mod32 v : (to_i64 v) mod 2 ^ 32 = v mod 2 ^ 32.
+Proof. rewrite <- (mod_mod_pow2 (to_i64 v) 32 64), to_i64_mod, mod_mod_pow2 by lia. reflexivity. Qed.
+
+Theorem known_base_equiv_rel base asize atoff slots e :
+  e_kind e = RAbsToRel -> e_fmt e = fmt_of_kind K_Rel32 -> e_old e = 0 ->
+  let next := e_secoff e + e_off e + e_region e in
+  let abits := if asize <=? 4 then 32 else 64 in
+  (forall o s', relocate_entry base asize atoff slots e = inl (o, s') ->
+                known_rel32 abits base next (e_payload e) = Some (o_word o)) /\
+  (forall w, known_rel32 abits base next (e_payload e) = Some w ->
+             relocate_entry base asize atoff slots e = inl ({| o_word := w; o_rewrite := None; o_slot := None |}, slots)).
+Proof.
+  intros Hk Hf Ho next abits. unfold relocate_entry, known_rel32, abits. rewrite Hk, Hf, Ho. fold next.
+  set (v := wrap 64 (e_payload e - (base + next))).
+  destruct (asize <=? 4) eqn:Ea; simpl (_ <=? 32).
+  - assert (Hs : - 2 ^ 31 <= sext 32 v < 2 ^ 31).
+    { rewrite sext_is_sextz. pose proof (sextz_range 32 v ltac:(lia)) as X. change (32 - 1) with 31 in X. exact X. }
+    assert (E1 : to_i64 (wrap 64 (sext 32 v)) = sext 32 v) by (apply to_i64_wrap; lia).
+    rewrite E1. destruct (enc_rel32_total _ Hs) as (m & He).
+    assert (Hm : m = v mod 2 ^ 32).
+    { assert (Hi : int64 (sext 32 v)) by (unfold int64; lia). rewrite (enc_rel32_value _ _ Hi He). rewrite sext_is_sextz. apply sextz_mod_id. lia. }
+    unfold write_offset. rewrite He, Z.lor_0_l, Hm. split.
+    + intros o s' H. injection H as <- <-. reflexivity.
+    + intros w H. injection H as <-. reflexivity.
+  - destruct (is_int32 (to_i64 v)) eqn:Ei.
+    + apply is_int32_spec in Ei. destruct (enc_rel32_total _ Ei) as (m & He).
+      assert (Hm : m = v mod 2 ^ 32) by (rewrite (enc_rel32_value _ _ (to_i64_int64 v) He); apply to_i64_mod32).
+      unfold write_offset. rewrite He, Z.lor_0_l, Hm. split.
+      * intros o s' H. injection H as <- <-. reflexivity.
+      * intros w H. injection H as <-. reflexivity.
+    + split; intros; discriminate.
+Qed.
+
+(* x86-64 call/jmp imm: when the target is within rel32 reach the entry is patched directly to the very field the known-base path emits;
+   otherwise the known-base path records the same address-table entry *)
+Theorem known_base_equiv_addr_entry base asize atoff slots e opc w :
+  e_kind e = RAddrEntry opc -> e_fmt e = fmt_of_kind K_Rel32 -> e_old e = 0 -> 2 <= e_off e + e_lead e ->
+  known_rel32 64 base (e_secoff e + e_off e + e_region e) (e_payload e) = Some w ->
+  relocate_entry base asize atoff slots e = inl ({| o_word := w; o_rewrite := None; o_slot := None |}, slots).
+Proof.
+  intros Hk Hf Ho Hl. unfold relocate_entry, known_rel32. rewrite Hk, Hf, Ho. simpl (64 <=? 32).
+  replace (negb (vsize (fmt_of_kind K_Rel32) =? 4) || (e_off e + e_lead e <? 2)) with false
+    by (symmetry; apply orb_false_iff; split; [reflexivity|apply Z.ltb_ge; lia]).
+  set (v := wrap 64 (e_payload e - (base + (e_secoff e + e_off e + e_region e)))).
+  destruct (is_int32 (to_i64 v)) eqn:Ei; [|discriminate].
+  apply is_int32_spec in Ei. destruct (enc_rel32_total _ Ei) as (m & He).
+  assert (Hm : m = v mod 2 ^ 32) by (rewrite (enc_rel32_value _ _ (to_i64_int64 v) He); apply to_i64_mod32).
+  intros H. injection H as <-. unfold write_offset. rewrite He, Z.lor_0_l, Hm. reflexivity.
+Qed.
